@@ -43,7 +43,7 @@ const sx_block *sx_block_at(int i) { return &blocks[i]; }
 #define SNAP_STACK 6144
 static unsigned char stacks[SX_MAXT][STACK_SZ] __attribute__((aligned(64)));
 static ucontext_t sched_ctx, tctx[SX_MAXT];
-static struct { int started, finished; sx_op pend; unsigned long yield_seen; } T[SX_MAXT];
+static struct { int started, finished; sx_op pend; unsigned long yield_seen; int ysig_valid; uint64_t ysig; unsigned long yver; } T[SX_MAXT];
 static int cur = -1, active;
 static const sx_scenario *SC;
 static unsigned long mem_version;
@@ -138,7 +138,7 @@ void __wrap_abort(void)
 }
 int __wrap_sched_yield(void)
 {
-    if (active && cur >= 0) { T[cur].yield_seen = mem_version; point(SX_OP_YIELD, 0, 0, -1); }
+    if (active && cur >= 0) { T[cur].yield_seen = (unsigned long)-1; point(SX_OP_YIELD, 0, 0, -1); }      /* whether the yield blocks is decided by the scheduler once the thread is parked (futile_spin) */
     return 0;
 }
 
@@ -230,6 +230,29 @@ static key128 state_key(void)
         }
     }
     return k;
+}
+
+/* A yielding thread is BLOCKED (until shared memory changes) only when it is spinning in vain: it arrives at a yield with exactly the
+ * continuation (registers, live stack) and exactly the memory it had at its previous yield - a whole iteration that changed nothing and learned
+ * nothing, so the next one would be identical.  A yield in a retry loop whose retry can succeed without anybody else moving (a failed
+ * compare-and-swap that re-read the value) is just a scheduling point. */
+static uint64_t thread_sig(int t)
+{
+    key128 k = { 1469598103934665603ULL, 42 };
+    greg_t *g = tctx[t].uc_mcontext.gregs;
+    greg_t regs[8] = { g[REG_RBX], g[REG_RBP], g[REG_R12], g[REG_R13], g[REG_R14], g[REG_R15], g[REG_RSP], g[REG_RIP] };
+    uintptr_t sp = (uintptr_t)g[REG_RSP], top = (uintptr_t)stacks[t] + STACK_SZ;
+    kmix(&k, regs, sizeof regs);
+    if (sp >= (uintptr_t)stacks[t] && sp < top) kmix(&k, (void *)sp, top - sp);
+    return k.a ^ (k.b << 1);
+}
+static void futile_spin(int c)
+{
+    uint64_t sig;
+    if (T[c].finished || T[c].pend.kind != SX_OP_YIELD) return;
+    sig = thread_sig(c);
+    T[c].yield_seen = (T[c].ysig_valid && T[c].ysig == sig && T[c].yver == mem_version) ? mem_version : (unsigned long)-1;
+    T[c].ysig = sig; T[c].yver = mem_version; T[c].ysig_valid = 1;
 }
 
 /* visited set */
@@ -388,6 +411,7 @@ static void step(int c)
     cur = -1;
     h = mem_hash();
     if (h != arena_hash_prev) { mem_version++; arena_hash_prev = h; }
+    futile_spin(c);
 }
 
 /* outcome set (distinct terminal world states) */
